@@ -199,6 +199,25 @@ def judge_janssen(ctx, c):
         ctx.check("C10.janssen:stress-balance<=1e-4", abs(r) <= 1e-4 * sc, witi,
                   {"z0": float(z0[i]), "residual_rel": abs(r) / sc}, key=key)
         ctx.ratio("C10.janssen:stress-balance<=1e-4", abs(r) / sc, 1e-4)
+        if abs(r) <= 1e-4 * sc and i == 0:
+            # warm start: the roughness for a slightly different wind (0.3 % more), started from this solution, must
+            # satisfy ITS balance - a supplied first guess is a guess, not an answer
+            sp2 = speed[i] * 1.003
+            okw, zw = guarded(ctx, "C10.no-exception",
+                              lambda: b.generation.roughness(wl.da([sp2]), wi, si, roughness_length_guess=wl.da([float(z0[i])]),
+                                                             wind_speed_input_type=itype), witi, key="C10:janssen:exception")
+            if okw and np.isfinite(float(zw.values[0])):
+                zv = float(zw.values[0])
+                ust2 = sp2 * kappa / np.log(elev / zv) if itype == "u10" else sp2
+                try:
+                    st2 = float(b.generation.stress(si, wl.da([sp2]), wi, roughness_length=wl.da([zv]), wind_speed_input_type=itype)["stress"].values[0])
+                    r2, sc2 = rho * ust2 ** 2 - st2, rho * ust2 ** 2
+                    ctx.count("C10.janssen_warm_started_solves_judged")
+                    ctx.check("C10.janssen:stress-balance<=1e-4", abs(r2) <= 1e-4 * sc2, witi,
+                              {"warm_start_from": float(z0[i]), "z0": zv, "wind": float(sp2), "residual_rel": abs(r2) / sc2},
+                              key="C10:janssen:balance:warm-start")
+                except Exception:
+                    pass
 
 
 def judge_janssen_history(ctx, c):
